@@ -160,7 +160,7 @@ package protocol
 // ---------------------------------------------------------------- the packet loop
 
 //@ func (*Processor).Process
-//@   requires[C10] wf: p != nil && p.gw != nil && p.tunnel != nil && p.tunnel.transportIn != nil && p.tunnel.transportOut != nil && p.tunnel.User != nil
+//@   requires[C10] wf: p != nil && p.gw != nil && p.tunnel != nil && p.tunnel.transportIn != nil && p.tunnel.transportOut != nil && p.tunnel.User != nil && dyn(p.tunnel.User, ptr(identity.User)) != nil
 //@   requires start: p.state == 0 && !#errSent && !#closeOK && !#hsOK && !#tcOK && !#taOK && !#ccOK && #dials == 0 && #fwd == 0 && #backend == nil
 //@   requires wiring: #cookieRequired == (p.gw.CheckPAACookie != nil) && #hostRequired == (p.gw.CheckHost != nil)
 //@   loop 0 invariant[C01] phase: 0 <= p.state && p.state <= 5
@@ -170,11 +170,82 @@ package protocol
 //@       && (p.state < 4 ==> #backend == nil)
 //@       && (p.state >= 2 && #cookieRequired ==> #cookieOK)
 //@       && !#errSent && !#closeOK
-//@   assigns *
+//@   assigns[C07] p.state, p.tunnel.rwc, p.tunnel.TargetServer, p.tunnel.BytesSent, p.tunnel.BytesReceived, p.tunnel.LastSeen, p.gw.IdleTimeout
+//@   assigns[C07] region(protocol.Tunnel.TargetServer), region(protocol.Tunnel.RemoteAddr), region(identity.User.userName)
+//@   assigns #errSent, #closeOK, #hsOK, #tcOK, #taOK, #ccOK, #cookieOK, #hostOK, #hostChecked, #reqServer, #reqPort, #dials, #dialAddr, #backend, #fwd, #lastType, #lastStatus, #relayed, #connWrite, #connWriteTo, #connWrites
 //@   ensures[C01] once: #dials <= 1 && #fwd <= 1
 //@   ensures[C01] errorEnds: #errSent ==> result != nil
 //@   ensures[C01] cleanEnd: result == nil ==> #closeOK
 //@   site (*Tunnel).Write requires[C16] respType: le16(arg1, 0) == uint16(respTypeOf(pt))
 //@   site receive requires[C06] payload: arg0 == pkt && arg1 == p.tunnel.rwc
 //@   site forward requires[C06] pair: arg0 == p.tunnel.rwc && arg1 == p.tunnel
+//@   nopanic[C10]
+
+// ---------------------------------------------------------------- HTTP handlers, registry, package state
+
+//@ define freshHistory() = !#errSent && !#closeOK && !#hsOK && !#tcOK && !#taOK && !#ccOK && #dials == 0 && #fwd == 0 && #backend == nil
+//@ define pkgReady() = connectionCache != nil && websocketConnections != nil && legacyConnections != nil && c != nil && c.cache != nil
+// every cached tunnel is stored under its own connection identifier (C07: IN and OUT pair only on equal identifiers)
+//@ define cachedTunnel(k) = dyn(cacheVal(c.cache, k), ptr(Tunnel))
+//@ define tunnelCacheInv() = (forall k string :: cacheHas(c.cache, k) ==> typeIs(cacheVal(c.cache, k), ptr(Tunnel)) && cachedTunnel(k) != nil && allocated(cachedTunnel(k)) && cachedTunnel(k).RDGId == k && cachedTunnel(k).User != nil && dyn(cachedTunnel(k).User, ptr(identity.User)) != nil && allocated(dyn(cachedTunnel(k).User, ptr(identity.User))))
+//@ define idOf(ctx) = dyn(ctxval(ctx, identity.CTXKey), ptr(identity.User))
+//@ define hasIdentity(ctx) = typeIs(ctxval(ctx, identity.CTXKey), ptr(identity.User)) && idOf(ctx) != nil && idOf(ctx).attributes != nil
+
+//@ func init
+//@   assigns *
+//@   ensures[C10] ready: pkgReady()
+
+//@ func NewProcessor
+//@   ensures[C01] fresh: result != nil && fresh(result) && result.gw == gw && result.tunnel == tunnel && result.state == 0
+//@   nopanic[C10]
+
+//@ func RegisterTunnel
+//@   requires[C10] t != nil
+//@   assigns Connections, region(map:Str:ref)
+//@   ensures[C11] registered: Connections != nil && mapHas(Connections, t.Id)
+//@   nopanic[C10]
+
+//@ func RemoveTunnel
+//@   requires[C10] t != nil
+//@   assigns region(map:Str:ref)
+//@   ensures[C11] removed: !mapHas(Connections, t.Id)
+//@   nopanic[C10]
+
+//@ func (*Gateway).handleWebsocketProtocol
+//@   requires[C10] wf: g != nil && c != nil && t != nil && t.User != nil && dyn(t.User, ptr(identity.User)) != nil && pkgReady()
+//@   requires start: freshHistory() && #cookieRequired == (g.CheckPAACookie != nil) && #hostRequired == (g.CheckHost != nil)
+//@   assigns *
+//@   requires[C07] keyed: tunnelCacheInv()
+//@   ensures[C07] keyed: tunnelCacheInv()
+//@   ensures[C11] clientClosed: closed(t.transportIn) && closed(box(c))
+//@   ensures[C11] unregistered: !mapHas(Connections, t.Id)
+//@   ensures[C11] gauge: gauge(websocketConnections) == old(gauge(websocketConnections))
+//@   ensures[C11] backendClosed: t.rwc != nil ==> closed(t.rwc)
+//@   ensures[C07] pair: t.transportIn == t.transportOut
+//@   site (*Processor).Process requires[C01] oncePerTunnel: arg0.tunnel == t && arg0.gw == g && arg0.state == 0
+//@   nopanic[C10]
+
+//@ func (*Gateway).handleLegacyProtocol
+//@   requires[C10] wf: g != nil && w != nil && r != nil && t != nil && t.User != nil && dyn(t.User, ptr(identity.User)) != nil && pkgReady() && hasIdentity(reqctx(r))
+//@   requires start: freshHistory() && #cookieRequired == (g.CheckPAACookie != nil) && #hostRequired == (g.CheckHost != nil)
+//@   requires[C07] keyed: tunnelCacheInv()
+//@   assigns *
+//@   ensures[C07] keyed: tunnelCacheInv()
+//@   ensures[C11] gauge: gauge(legacyConnections) == old(gauge(legacyConnections))
+//@   ensures[C11] unregistered: t.Id != old(t.Id) ==> !mapHas(Connections, t.Id)
+//@   ensures[C11] inClosed: r.Method == "RDG_IN_DATA" && old(t.transportIn) == nil && t.transportIn != nil ==> closed(t.transportIn)
+//@   ensures[C11] outClosed: r.Method == "RDG_IN_DATA" && old(t.transportIn) == nil && t.transportIn != nil && t.transportOut != nil ==> closed(t.transportOut)
+//@   ensures[C11] backendClosed: t.rwc != nil && t.rwc != old(t.rwc) ==> closed(t.rwc)
+//@   site (*Processor).Process requires[C01] oncePerTunnel: arg0.tunnel == t && arg0.gw == g && arg0.state == 0 && old(t.transportIn) == nil
+//@   nopanic[C10]
+
+//@ func (*Gateway).HandleGatewayProtocol
+//@   requires[C10] wf: g != nil && w != nil && r != nil && r.Header != nil && pkgReady() && hasIdentity(reqctx(r))
+//@   requires[C10] remoteAddr: mapHas(idOf(reqctx(r)).attributes, "remoteAddr") && typeIs(idOf(reqctx(r)).attributes["remoteAddr"], string)
+//@   requires start: freshHistory() && #cookieRequired == (g.CheckPAACookie != nil) && #hostRequired == (g.CheckHost != nil)
+//@   requires[C07] keyed: tunnelCacheInv()
+//@   assigns *
+//@   ensures[C07] keyed: tunnelCacheInv()
+//@   site context.WithValue requires[C07] keyedAfterAlloc: tunnelCacheInv()
+//@   site (*Gateway).handleLegacyProtocol requires[C07] sameId: arg3 != nil && arg3.RDGId == r.Header.Get("Rdg-Connection-Id")
 //@   nopanic[C10]
